@@ -137,6 +137,10 @@ class TdmsFile(object):
                 read_metadata_only if not self._reader.is_index_file_only() else True,
                 keep_open
             )
+        except Exception:
+            # The caller never receives this object so can't close it
+            self._reader.close()
+            raise
         finally:
             if not keep_open:
                 self._reader.close()
